@@ -328,3 +328,4 @@ CHECKS["C20"]["text"] = CHECKS["C20"]["text"] + " R20.5c also covers a str-only 
 CHECKS["C11"]["text"] = CHECKS["C11"]["text"] + " Also: every value stored into <node>.value by the schema repair walk is, on every path, the result of repair_value(<that node>.value, <the field's own definition>) made in the same visit - never an outcome read back from a memo filled by another node (R11.9)."
 CHECKS["C08"]["text"] = CHECKS["C08"]["text"] + " In TYPE, the kind the table is asked for and the kind the bool guard tests are the same expression (R08.9)."
 CHECKS["C14"]["text"] = CHECKS["C14"]["text"] + " R14.8 also covers `if not <raw value>: continue` skips in the converters, and judges only key-level decisions (a test of a whole rendering keeps or drops no key)."
+CHECKS["C10"]["text"] = CHECKS["C10"]["text"] + " In the CLI's write command no change of the parsed document is reachable after the Validator pass whose verdict is printed as validation_status (R10.11)."
